@@ -84,6 +84,10 @@ fn run_one(w: &World, t: usize, payloads: &[u8], seq: &[Ev]) -> (Vec<(String, St
         }
     };
     let mut steps = 0u64;
+    // digests for which a BatchRequest left the node at any earlier step: the mempool synchronizer
+    // keeps such a request pending (no Cleanup reaches gc_depth here) and rightly does not repeat it
+    // when a second block references the same batch
+    let mut ever_requested: BTreeSet<Digest> = BTreeSet::new();
     for (i, ev) in seq.iter().enumerate() {
         steps += 1;
         match ev {
@@ -126,6 +130,7 @@ fn run_one(w: &World, t: usize, payloads: &[u8], seq: &[Ev]) -> (Vec<(String, St
                 }
             }
         }
+        ever_requested.extend(missing_requested.iter().cloned());
         for f in &frames {
             if f.dst.port() < MEMPOOL_PORT0 {
                 if let Ok(ConsensusMessage::Timeout(tm)) = bincode::deserialize::<ConsensusMessage>(&f.bytes) {
@@ -148,17 +153,20 @@ fn run_one(w: &World, t: usize, payloads: &[u8], seq: &[Ev]) -> (Vec<(String, St
             let b = &fam.blocks[*k];
             let missing: Vec<&Digest> = b.payload.iter().filter(|d| !store_has(&node, d)).collect();
             let first_time = !seq[..i].contains(ev);
-            if !missing.is_empty() && first_time && !missing.iter().all(|d| missing_requested.contains(*d)) {
-                bad.push(("no-batch-request".into(), format!("step {} ({:?}): the proposal's payload is missing locally but no BatchRequest for it was sent", i, ev)));
+            if !missing.is_empty() && first_time && !missing.iter().all(|d| ever_requested.contains(*d)) {
+                bad.push(("no-batch-request".into(), format!("step {} ({:?}): the proposal's payload is missing locally but no BatchRequest for it was ever sent", i, ev)));
             }
         }
         for p in node.rt.panics() {
             bad.push(("panic".into(), format!("step {} ({:?}): a node task panicked: {}", i, ev, p)));
         }
-        if !bad.is_empty() {
+        // a missing batch request is reported but the run goes on, so that a blind vote or commit
+        // that follows from it is reported too
+        if bad.iter().any(|(sig, _)| sig != "no-batch-request") {
             break;
         }
     }
+    bad.dedup_by(|a, b| a.0 == b.0);
     (bad, steps, (votes, commits, requests))
 }
 
